@@ -100,7 +100,7 @@ class C05(TracedProp):
 class C06(TracedProp):
     id = "C06"
     profile = dict(limits=(1, 1, 2, 3, 50), beta_values=(0, 0.5, 2, 5, 20, 200, 1e5, 1e5), beta_forms=ANY_BETA,
-                   front_joint_p=0.35)
+                   front_joint_p=0.35, mmc_values=(0, 0, 0, 1e-3, 1e-2, 0.05, 0.12, 0.3))
     oracle = staticmethod(oracles.c06)
     counts = dict(quick=720, thorough=40000)
     extra_rule = ("C06: cost = -overall log-likelihood + switching cost over within-series pairs; list length = labelled "
@@ -252,6 +252,18 @@ class C17(TracedProp):
             shift = [0.0] * n
             shift[r.randrange(n)] = float(r.choice([1e3, 1e4, 1e5, 1e6, -1e6, 1e7]))
             case["data"]["shift"] = shift
+        if r.random() < 0.12:
+            # very clean signals: regimes far apart, residual noise 1e-7..1e-5, one row per window so that no window
+            # straddles a regime change -> the within-cluster dispersion is tiny (1e-12..1e-7) but not zero
+            d = case["data"]
+            d["noise"] = float(r.choice([1e-7, 1e-6, 1e-6, 1e-5]))
+            d["sep"] = float(r.choice([3.0, 6.0]))
+            d["regimes"] = max(2, d["regimes"])
+            d.pop("dup_rows", None)
+            d.pop("dtype", None)
+            if r.random() < 0.8:
+                case["args"]["window_size"] = 1
+            case["args"]["num_clusters"] = min(case["args"]["num_clusters"], d["regimes"])
         return case
 
     def is_nontrivial(self, out):
